@@ -129,6 +129,14 @@ var c02Scripts = func() (out [][]c02Op) {
 			out = append(out, []c02Op{{op: "admit", k: a}, {op: "age", d: 7 * time.Minute}, {op: "admit", k: b}, {op: "admit", k: c}, {op: "age", d: 4 * time.Minute}})
 		}
 	}
+	// a registration is delivered again after its lifetime ran out but before the sweep (and, as a control, shortly
+	// before): the duplicate must neither revive it nor restart its clock
+	for _, ta := range c02TTs {
+		a, b := c02Key{0, 0, ta}, c02Key{0, 1, c02TTs[0]}
+		out = append(out, []c02Op{{op: "admit", k: a}, {op: "ageonly", d: 11 * time.Minute}, {op: "dup", k: a}, {op: "admit", k: b}, {op: "age", d: 0}})
+		out = append(out, []c02Op{{op: "admit", k: a}, {op: "use", k: a}, {op: "ageonly", d: 6*time.Hour + 2*time.Minute}, {op: "dup", k: a}, {op: "admit", k: b}, {op: "age", d: 0}})
+		out = append(out, []c02Op{{op: "admit", k: a}, {op: "ageonly", d: 9 * time.Minute}, {op: "dup", k: a}, {op: "admit", k: b}, {op: "age", d: 0}, {op: "age", d: 2 * time.Minute}})
+	}
 	// a used registration outlives two generations of neighbours and finally expires itself
 	a, b, c := c02Key{0, 0, pb.TransportType_Min}, c02Key{0, 1, pb.TransportType_Prefix}, c02Key{0, 2, pb.TransportType_Obfs4}
 	out = append(out, []c02Op{{op: "admit", k: a}, {op: "use", k: a}, {op: "admit", k: b}, {op: "age", d: 3 * time.Hour}, {op: "admit", k: c}, {op: "age", d: 4 * time.Hour}})
@@ -189,6 +197,19 @@ func c02Build(t *testing.T, rng *rand.Rand, idx int) *c02World {
 				use(w.model[op.k])
 			case "age":
 				ageSweep(op.d)
+			case "ageonly": // time passes, no sweep yet
+				w.s.rm.VerifBackdate(op.d)
+				w.ops = append(w.ops, fmt.Sprintf("age(%v)", op.d))
+				for _, e := range w.sortedEntries() {
+					e.age += op.d
+				}
+			case "dup": // the same registration is delivered again (real ingest): it changes nothing, in particular not its age
+				if e := w.model[op.k]; e != nil {
+					if _, err := w.s.vAdmit(e.spec); err != nil {
+						t.Fatalf("duplicate delivery: %v", err)
+					}
+					w.ops = append(w.ops, fmt.Sprintf("duplicate%v", op.k))
+				}
 			}
 		}
 		return w
